@@ -11,6 +11,19 @@ import OsacaVerif.Lemmas.CycleNorm
 /-
   C05 — Loop-carried dependencies are exactly the cross-iteration dependency cycles.
   (Model: `LCD.lcd`; independent oracle: `Spec.cycles`.)
+
+  Proved here, for kernels of any length (`WFKernel`: strictly increasing line numbers):
+  * `offset_ok`, `double_wf`, `emissions_forward` — the doubled kernel is well-formed, its graph a DAG;
+  * `pathsFrom_sound` / `pathsFrom_complete`, `fuel_suffices`, `lcd_paths_exact` — the search returns
+    exactly the simple paths `i ⇝ i + offset`;
+  * `entry_latency`, `post_dedup`, `post_represents` — the post-processing;
+  * `path_increasing`, `winding1_sorted`, `lcd_entry_shape` — one boundary crossing, sorted normal form;
+  * `dg_local`, `dg_local_copies` — the edge relation is a function of the stream segment;
+  * `lcd_sound`, `lcd_complete`, `lcd_sound_normal`, `lcd_key_collision_free`, `lcd_reported_once` —
+    the reported entries are exactly the winding-1 dependency cycles of the stream `k^ω`
+    (`IsStreamCycle (streamDep …)`), each reported once with its members and latency sum.
+  Not proved: that the executable oracle `Spec.cycles` (used by the harness on explicit edge lists)
+  enumerates the same `IsStreamCycle` objects — the two are compared by the differential check only.
 -/
 namespace OsacaVerif.Props.C05
 open OsacaVerif OsacaVerif.DG OsacaVerif.LCD
